@@ -29,7 +29,9 @@ ASSUMPTIONS = [
     "reactions have no inactive parts and no parameters (two reactions are the same iff their stoichiometries are)",
     "isolated substances belong to no split group (groups partition the reactions)",
     "substances that are net-produced by one reaction and net-consumed by another are in none of the four categories",
-    "identify_equilibria is compared on systems without repeated reactions only",
+    "forward/backward pairs are decided on the all (active + inactive) stoichiometries; when two reactions of a "
+    "system have the same all-stoichiometry the pairs are an open answer (genuine pairs, every reaction with a "
+    "later partner listed first in one) judged by TLC",
     "the substance lists of subset()/concatenate() results are not compared (the property names reactions only); "
     "sums are compared as multisets of reactions and sets of substances",
     "decompose_yields is judged when the net-stoichiometry vectors are independent (unique decomposition); results "
@@ -463,6 +465,10 @@ def _slice(ctx, cfg, n_pick, actions, via_tlc=False, min_cases=50):
             # an earlier step failed: let TLC name it
             to_tlc.append((hist[:len(obs)], obs))
             continue
+        if c["exp"].get("kind") == "graph" and not c["exp"]["exp"]["eqdef"]:
+            # reactions with the same all-stoichiometry: the pairs are an open answer, judged by TLC
+            to_tlc.append((hist, obs))
+            continue
         why = disagreement(hist[-1], obs[-1], c["exp"])
         if why.endswith("unencodable"):
             ctx.skip("unencodable")
@@ -643,7 +649,9 @@ def run(ctx):
     t0 = _t(ctx, "invariants", t0)
     _slice(ctx, "ctor_" + sfx, None if not q else 1000, ["PickRx", "GenMake"])
     _slice(ctx, "graph_" + sfx, 2500 if q else None, ["PickRx", "GenMake", "GenQuery"])
-    t0 = _t(ctx, "ctor+graph", t0)
+    # every ordering of up to 6 reactions of the chained shape whose split needs transitive fusion
+    _slice(ctx, "chain", None, ["PickRx", "GenMake", "GenQuery"])
+    t0 = _t(ctx, "ctor+graph+chain", t0)
     # the reaction graph as an object: rsys2dot output parsed back into nodes/edges (catalog with two
     # reactions carrying inactive parts; include_inactive True/False); graph queries on the same systems
     _slice(ctx, "dot_" + sfx, 1500 if q else None, ["PickRx", "GenMake", "GenQuery"])
